@@ -64,7 +64,9 @@ func c03Methods(g *gen.Grammar) (names [][]string, sigs map[string][]string) {
 	return
 }
 
-func c03UserGo(g *gen.Grammar, pkg string) string {
+// ptrDiscard: Token's Discard() is declared on the pointer receiver (the
+// elements of `A*!` are still Token values; lox accepts that).
+func c03UserGo(g *gen.Grammar, pkg string, ptrDiscard bool) string {
 	var b strings.Builder
 	fmt.Fprintf(&b, "package %s\n\nimport (\n\t\"fmt\"\n\t\"reflect\"\n\t\"strings\"\n)\n\n", pkg)
 	b.WriteString(`type Token struct {
@@ -72,7 +74,7 @@ func c03UserGo(g *gen.Grammar, pkg string) string {
 	Idx  int
 }
 
-func (t Token) Discard() bool { return t.Idx%2 == 1 }
+func (t TOKRECV) Discard() bool { return t.Idx%2 == 1 }
 
 type node struct {
 	ID    int
@@ -206,7 +208,11 @@ func Run(toks []int) (ok bool, trace []string, panicked string) {
 			fmt.Fprintf(&b, "func (p *parser) %s(%s) *N_%s {\n\treturn &N_%s{p.rec(%q%s)}\n}\n\n", m, strings.Join(ps, ", "), r.Name, r.Name, m, args)
 		}
 	}
-	return b.String()
+	recv := "Token"
+	if ptrDiscard {
+		recv = "*Token"
+	}
+	return strings.Replace(b.String(), "TOKRECV", recv, 1)
 }
 
 // ---------------------------------------------------------------------------
@@ -503,9 +509,24 @@ func c03Batch(tag string, gs []*gen.Grammar, L int, st *mc.Stats, mu *sync.Mutex
 	}
 	var jobs []*job
 	var pkgs []st3.Pkg
+	// a grammar with a `*!` term is run twice: Discard() on the value receiver of
+	// Token and on the pointer receiver (same documented filtering either way)
+	var ptrVariant []bool
+	{
+		var all []*gen.Grammar
+		for _, g := range gs {
+			all = append(all, g)
+			ptrVariant = append(ptrVariant, false)
+			if strings.Contains(g.LoxText(), "*!") {
+				all = append(all, g)
+				ptrVariant = append(ptrVariant, true)
+			}
+		}
+		gs = all
+	}
 	for i, g := range gs {
 		pkg := fmt.Sprintf("g%d", i)
-		user := c03UserGo(g, pkg)
+		user := c03UserGo(g, pkg, ptrVariant[i])
 		res := ws.RunFast(&pipe.Spec{Lox: map[string]string{"g.lox": g.LoxText()}, Go: map[string]string{"user.go": user}}, importerFor())
 		mu.Lock()
 		st.Evaluations++
